@@ -172,6 +172,11 @@ class Interp:
         val = self.eval(st.value, fr)
         for t in st.targets:
             self.assign(t, val, fr)
+        cuts = getattr(self.ctx.contract, "cuts", None)
+        if cuts and fr.func is not None and len(st.targets) == 1 and isinstance(st.targets[0], ast.Name):
+            cut = cuts.get(f"{fr.func.key}@{st.targets[0].id}")
+            if cut is not None:
+                self.ctx.generalise(self, fr, cut, st)
 
     def st_AnnAssign(self, st, fr):
         if st.value is not None:
